@@ -303,3 +303,6 @@ M("C20", "C20.cover", "src/scenic/formats/opendrive/xodr_parser.py", "          
 M("C15", "C15.sinks", _SI, "            self.agents += [\n                obj for obj in self.objects if obj.behavior and obj not in self.agents\n            ]", "            self.agents += list({obj for obj in self.objects if obj.behavior} - set(self.agents))", "c15-agents-from-set")
 M("C12", "C12.logs", _SI, "            allActions = defaultdict(tuple)", "            allActions = defaultdict(tuple, {a: () for a in self.agents})", "c12-action-map-prefilled")
 M("C14", "C14.cleanup", _SI, "                for obj in self.objects:\n                    disableDynamicProxyFor(obj)\n                for agent in self.agents:\n                    if agent.behavior and agent.behavior._isRunning:\n                        agent.behavior._stop()", "                for agent in self.agents:\n                    if agent.behavior and agent.behavior._isRunning:\n                        agent.behavior._stop()\n                for obj in self.objects:\n                    disableDynamicProxyFor(obj)", "c14-behaviours-stopped-through-proxies")
+M("C04", "C04.distance", _R, "        if dist > 0 and not (self.isConvex and other.isConvex) and self.intersects(other):\n            return 0\n\n        return dist", "        return dist", "c04-distance-surface-gap")
+M("C04", "C04.distance", _OT, "        if self._isPlanarBox and other._isPlanarBox and self.z == other.z:\n            return self._boundingPolygon.distance(other._boundingPolygon)", "        if self._isPlanarBox and other._isPlanarBox:\n            return self._boundingPolygon.distance(other._boundingPolygon)", "c04-distance-planar-any-height")
+RF("C04", _R, "        if dist > 0 and not (self.isConvex and other.isConvex) and self.intersects(other):\n            return 0\n\n        return dist", "        if dist <= 0 or (self.isConvex and other.isConvex):\n            return dist\n        return 0 if self.intersects(other) else dist", "c04-rf-distance-restructured")
